@@ -30,7 +30,9 @@ PROPS = {
              'inside any executor; area approved by the owning executor) and the local-prefix rule are written down in the Exec '
              'specification from the documented rule; TLC checks that a transaction ends ExecOk only if its receipt covers every '
              'key it Set and every reported key is allowed, and that nothing else reaches the state or the local data. Every row '
-             'of key class x executor name x reporting mode (exhaustive export) and random multi-transaction blocks are executed '
+             'of key class x executor name x reporting mode, every group of 2-3 members in which a later member re-writes (reported, '
+             'unreported, as a foreign key) what an earlier member wrote under the same Begin (exhaustive exports), and random '
+             'multi-transaction blocks are executed '
              'on the real node (main chain and para chain "user.p.para."), with hostile concretisations of each class '
              '(look-alike names, malformed prefixes, deposit areas of other addresses).',
         note='IsFriend of the synthetic executors approves keys carrying a mark; real executors (coins) are assumed to approve '
@@ -137,7 +139,8 @@ def _c11(ctx, b, q):
 
 def _c12(ctx, b, q):
     ctx.rule = ('behaviours = (a) every row executor name x key (namespace x deposit area x friend mark, malformed) x reporting mode '
-                'as a one-transaction block, exhaustively exported by TLC, on the main chain and on the para chain; (b) TLC simulation '
+                'as a one-transaction block, and every group of 2 (4 keys x 3 names) and of 3 (1 key x 2 names) members writing one key each, '
+                'exhaustively exported by TLC, on the main chain and (single rows) on the para chain; (b) TLC simulation '
                 'of 1-2 blocks of <=3 items over the same keys; non-trivial = a transaction writing a key that is not a plain key of its '
                 'own namespace / own local prefix; distinct by abstract action sequence')
     ctx.assumptions += ['IsFriend of the synthetic executors approves marked keys only; real executors approve nothing for them',
@@ -147,19 +150,30 @@ def _c12(ctx, b, q):
     else:
         res = _mc(ctx, 'Exec_C12_MCt.cfg', workers=6, timeout=14400, coverage=True)
         _coverage_ok(ctx, res, allow=('Run', 'Activity', 'TxRead("L"', 'TxList', 'TxFail', 'TxLocalFail', 'TxNext'))
+    # groups: a member re-writing (unreported / as a foreign key) what an earlier member wrote under the same Begin
+    _mc(ctx, 'Exec_C12_MCg.cfg', workers=4, timeout=3600)
     rows, oks = 0, 0
     first = None
-    for cfg, para in (('Exec_C12_AllS.cfg', 0), ('Exec_C12_AllSp.cfg', 1), ('Exec_C12_AllL.cfg', 0), ('Exec_C12_AllLp.cfg', 1)):
+
+    def same_key_group(x):
+        ks = [s['k'] for s in x['steps'] if s.get('op') == 'W']
+        return len(ks) != len(set(ks))
+
+    for cfg, para in (('Exec_C12_AllS.cfg', 0), ('Exec_C12_AllSp.cfg', 1), ('Exec_C12_AllL.cfg', 0), ('Exec_C12_AllLp.cfg', 1),
+                      ('Exec_C12_AllG.cfg', 0), ('Exec_C12_AllG3.cfg', 0)):
         allb = ctx.tlc_genall('Exec_All', cfg, timeout=7200)
         first = first or allb
         rows += len(allb)
-        oks += sum(1 for x in allb if x['steps'][-1]['ret'].get('tys') == ['ok'])
-        if q:
+        oks += sum(1 for x in allb if set(x['steps'][-1]['ret'].get('tys') or ['-']) == {'ok'})
+        if q and 'AllG' in cfg:
+            # quick tier: every group row in which two members write the same key, every third other row
+            allb = [x for i, x in enumerate(allb) if same_key_group(x) or i % 3 == ctx.seed % 3]
+        elif q:
             # quick tier: every second row of each table (offset by the seed); thorough: every row under 4 spellings
             allb = [x for i, x in enumerate(allb) if i % 2 == ctx.seed % 2]
         for salt in range(0, 1 if q else 4):
             ctx.replay(b, allb, opts=dict(para=para, salt=salt + ctx.seed % 7), par=6, timeout=14400, count=(salt == 0))
-    ctx.extra['exhaustive_tables'] = dict(rows=rows, rows_predicted_ExecOk=oks, cfgs='Exec_C12_All{S,Sp,L,Lp}.cfg',
+    ctx.extra['exhaustive_tables'] = dict(rows=rows, rows_predicted_ExecOk=oks, cfgs='Exec_C12_All{S,Sp,L,Lp,G,G3}.cfg',
                                           note='thorough: every abstract row; quick: every second row; the byte spelling of each class is sampled per salt')
     n = 150 if q else 1200
     for cfg in ('Exec_C12_Gen.cfg', 'Exec_C12_Genp.cfg'):
